@@ -304,8 +304,8 @@ theorem unexpired_of_refresh {tr : Trace} {endT : Int} (hwf : WFP tr endT)
     have hupb : upAt tr b.host tb = true := hwf.browse_up _ hb
     have htb : tb ≤ lastChange tr := le_lastChange (mem_browses.mp hb) rfl
     have hreg := hA.regBase
-    by_cases hcase : tb ≤ x.t + 750 * e
-    · -- the browser was there when x reached 75 % of its life
+    by_cases hcase : tb + 120 + 14000 + 10000 ≤ x.t + 750 * e
+    · -- the browser had finished its start-up phase when x reached 75 % of its life
       have w1 := refreshWindow_early hcase false
       have w2 := refreshWindow_early hcase true
       simp only [Bool.false_eq_true, if_false] at w1
@@ -323,7 +323,7 @@ theorem unexpired_of_refresh {tr : Trace} {endT : Int} (hwf : WFP tr endT)
         (by omega) (by omega) (by omega) (by omega)
       have := (k7b_same h7 hm1 hm2).2
       omega
-    · -- the browser started when x was already older: its third and fourth start-up questions
+    · -- the browser started when x was already older (or less than a start-up phase before): its third and fourth start-up questions
       have w1 := refreshWindow_late hcase false
       have w2 := refreshWindow_late hcase true
       simp only [Bool.false_eq_true, if_false] at w1
